@@ -355,6 +355,9 @@ func runH264Lossless(disable, avc bool, calls []Tok) Outcome {
 	if o.Fail == "" {
 		o.Fail = seq.Fail
 	}
+	if o.Fail == "" {
+		o.Fail = h264ShapeOracle(frags)
+	}
 	carriable := true
 	for _, nals := range nalsPerCall {
 		carriable = carriable && annexBCarriable(nals)
@@ -363,6 +366,50 @@ func runH264Lossless(disable, avc bool, calls []Tok) Outcome {
 		o.Fail = h264LosslessOracle(disable, avc, mtus, streams, nalsPerCall)
 	}
 	return o
+}
+
+// h264ShapeOracle: the property's second sentence on a payloader output, read from the bytes - every payload is a
+// single NAL unit (type 1-23), a STAP-A (24) or belongs to a run of at least two FU-A payloads (28) that starts
+// with S, ends with E, never carries both, and has the same indicator (F, NRI) and the same type on every fragment
+func h264ShapeOracle(frags [][]byte) string {
+	inRun := false
+	var ind, ty byte
+	for i, f := range frags {
+		if len(f) == 0 {
+			return fmt.Sprintf("payload %d is empty", i)
+		}
+		switch t := f[0] & 0x1F; {
+		case t >= 1 && t <= 24:
+			if inRun {
+				return fmt.Sprintf("payload %d (type %d) inside an FU-A run that has not ended", i, t)
+			}
+		case t == 28:
+			if len(f) < 2 {
+				return fmt.Sprintf("payload %d: FU-A without its header", i)
+			}
+			s, e := f[1]&0x80 != 0, f[1]&0x40 != 0
+			switch {
+			case s && e:
+				return fmt.Sprintf("payload %d: FU-A with S and E (a unit in one fragment)", i)
+			case s && inRun:
+				return fmt.Sprintf("payload %d: S inside a run", i)
+			case s:
+				inRun, ind, ty = true, f[0], f[1]&0x1F
+			case !inRun:
+				return fmt.Sprintf("payload %d: FU-A fragment without a start", i)
+			case f[0] != ind || f[1]&0x1F != ty:
+				return fmt.Sprintf("payload %d: indicator %02x / type %d differ from the start fragment's %02x / %d", i, f[0], f[1]&0x1F, ind, ty)
+			case e:
+				inRun = false
+			}
+		default:
+			return fmt.Sprintf("payload %d has type %d", i, t)
+		}
+	}
+	if inRun {
+		return "an FU-A run without an end fragment"
+	}
+	return ""
 }
 
 // emitH264Extremes: sizes at which narrow integer arithmetic would wrap - a unit cut into more than
